@@ -125,8 +125,8 @@ pub fn c03(ctx: &Ctx) -> (CheckMeta, Outcome) {
         out.merge(run_streams(b, items_b, ctx, &["C03"]));
     }
     let meta = CheckMeta {
-        property: "C03",
-        level: "exploration",
+        property: "C03".into(),
+        level: "exploration".into(),
         rule: "bounded-exhaustive: histories 'o pattern bits; codeword; sentinel (delta(5)+7 raw bits)' written by the real writer and read back by real readers; (a) every offset 0..=129 x writer u64 x readers {buf32 zero-ext, unbuf strict} x core codes; (b) every writer word 8..128 x every reader kind x {zero-ext, strict} x boundary offsets (thorough: every offset 0..=2W+1) x all codes (zeta 1..=63, pi/rice/exp-golomb 0..=63, golomb/minimal-binary moduli 1..=64, 2^i-1, 2^i, 2^i+1, 2^64-1), values dense below a bound plus every 2^i+-2, length steps, domain maxima, seeded extras, restricted to codewords <= 4096 bits; every read variant (default, parametric with/without tables) is tried on a clone; oracle: value, bit_pos after the read = end of the written codeword, sentinel decodes; non-trivial = codeword straddles a writer word boundary at that offset or value > 1023".into(),
         assumptions: vec!["readers that printed the look-ahead diagnostic for a table are not asked to use that table (library documentation: behaviour unpredictable otherwise)".into()],
     };
@@ -163,10 +163,12 @@ pub fn c04(ctx: &Ctx) -> (CheckMeta, Outcome) {
             out.merge(run_streams(cfgs.clone(), std::sync::Arc::new(items), ctx, &["C04", "C01"]));
         }
     }
-    out.cov.traces_validated += crate::props::modelval::validate_reference(&mut out);
+    if crate::pool::is_primary() {
+        out.cov.traces_validated += crate::props::modelval::validate_reference(&mut out);
+    }
     let meta = CheckMeta {
-        property: "C04",
-        level: "exploration",
+        property: "C04".into(),
+        level: "exploration".into(),
         rule: "bounded-exhaustive: bytes produced by the real writer for 'o pattern bits; codeword; sentinel' vs the image of the reference encoder (textbook definitions in harness/src/model.rs, validated against python/gen_code_tables.py, the documented table and tests/test_codes_regression.rs); all codes and parameters as C03, every value below 4096 (65536 thorough) for core codes plus boundaries, every writer word size, every default/parametric write variant with tables on and off; zeta compared only where 2^((h+1)k) <= 2^64; non-trivial as C03".into(),
         assumptions: vec!["reference encoder is an independent transcription of the module documentation".into()],
     };
@@ -275,8 +277,8 @@ pub fn c06(ctx: &Ctx) -> (CheckMeta, Outcome) {
     }
     out.merge(o2);
     let meta = CheckMeta {
-        property: "C06",
-        level: "exploration",
+        property: "C06".into(),
+        level: "exploration".into(),
         rule: "bounded-exhaustive: (1) every library length function (len_*, len_*_param with tables on/off, byte_len_vbyte, Codes::len, FuncCodeLen, ConstCode::len) vs the reference codeword length for all codes/parameters, all values below 2^16 (2^20 thorough) for core codes, below 2^10 otherwise, every 2^i+-2, every code-specific step point, domain maxima, seeded extras (no codeword-length restriction); (2) streams as in C03: value returned by write_*, growth of the real stream and bit_pos advance of every read variant; non-trivial = value at which the reference length steps, or value > 2^32".into(),
         assumptions: vec!["reference length = length of the reference codeword (harness/src/model.rs)".into()],
     };
